@@ -835,6 +835,248 @@ theorem concrete_present {name : String} {ms : List (String × MemberSpec)} {o :
     obtain ⟨a, ha, rfl, hv⟩ := dsCollect_keys_present (args := args) hKe hkKe
     exact ⟨(hok a ha).1, (hok a ha).2, hv⟩
 
+/-! ### Python dict equality is an equivalence; the restriction is unique up to it -/
+
+theorem mem_of_alookup {k : String} {v : V} {a : List (String × V)} (h : alookup k a = some v) :
+    (k, v) ∈ a := by
+  induction a with
+  | nil => simp [alookup] at h
+  | cons p rest ih =>
+    obtain ⟨k', v'⟩ := p
+    by_cases e : k' = k
+    · subst e; simp [alookup] at h; subst h; simp
+    · simp [alookup, e] at h; simp [ih h]
+
+mutual
+theorem V.le_refl : ∀ v : V, V.le v v = true
+  | .dict a => by
+      rw [le_dict_iff]; intro k v h
+      exact ⟨v, h, entries_le_refl a k v (mem_of_alookup h)⟩
+  | .list xs => by rw [V.le]; exact leList_refl xs
+  | .none => by simp [V.le]
+  | .bool _ => by simp [V.le]
+  | .int _ => by simp [V.le]
+  | .str _ => by simp [V.le]
+  | .tuple _ => by simp [V.le]
+  | .set _ => by simp [V.le]
+  | .app _ _ _ => by simp [V.le]
+  | .fn _ _ _ => by simp [V.le]
+  | .comp _ => by simp [V.le]
+  | .missing => by simp [V.le]
+theorem entries_le_refl : ∀ (a : List (String × V)) (k : String) (v : V), (k, v) ∈ a → V.le v v = true
+  | [], _, _, h => by simp at h
+  | (k0, v0) :: rest, k, v, h =>
+    if e : v = v0 then e ▸ V.le_refl v0
+    else entries_le_refl rest k v (by
+      simp at h
+      rcases h with ⟨_, h⟩ | h
+      · exact absurd h e
+      · exact h)
+theorem leList_refl : ∀ xs : List V, leList xs xs = true
+  | [] => by simp [leList]
+  | x :: xs => by simp [leList, V.le_refl x, leList_refl xs]
+end
+
+theorem le_atom_left {a b : V} (hd : ∀ d, a ≠ .dict d) (hl : ∀ l, a ≠ .list l)
+    (h : V.le a b = true) : a = b := by
+  cases a with
+  | dict d => exact absurd rfl (hd d)
+  | list l => exact absurd rfl (hl l)
+  | none => exact eq_of_beq (by simpa [V.le] using h)
+  | bool _ => exact eq_of_beq (by simpa [V.le] using h)
+  | int _ => exact eq_of_beq (by simpa [V.le] using h)
+  | str _ => exact eq_of_beq (by simpa [V.le] using h)
+  | tuple _ => exact eq_of_beq (by simpa [V.le] using h)
+  | set _ => exact eq_of_beq (by simpa [V.le] using h)
+  | app _ _ _ => exact eq_of_beq (by simpa [V.le] using h)
+  | fn _ _ _ => exact eq_of_beq (by simpa [V.le] using h)
+  | comp _ => exact eq_of_beq (by simpa [V.le] using h)
+  | missing => exact eq_of_beq (by simpa [V.le] using h)
+
+mutual
+theorem V.le_trans : ∀ (a b c : V), V.le a b = true → V.le b c = true → V.le a c = true
+  | .dict a, b, c, h1, h2 => by
+      obtain ⟨b', rfl⟩ := le_dict_left h1
+      obtain ⟨c', rfl⟩ := le_dict_left h2
+      rw [le_dict_iff] at h1 h2 ⊢
+      intro k v hk
+      obtain ⟨w, hw, hvw⟩ := h1 k v hk
+      obtain ⟨x, hx, hwx⟩ := h2 k w hw
+      exact ⟨x, hx, entries_le_trans a k v (mem_of_alookup hk) w x hvw hwx⟩
+  | .list xs, b, c, h1, h2 => by
+      obtain ⟨b', rfl, h1'⟩ := le_list_left h1
+      obtain ⟨c', rfl, h2'⟩ := le_list_left h2
+      rw [V.le]
+      exact leList_trans xs b' c' h1' h2'
+  | .none, b, c, h1, h2 => by
+      have := le_atom_left (by intro d; simp) (by intro l; simp) h1; subst this; exact h2
+  | .bool _, b, c, h1, h2 => by
+      have := le_atom_left (by intro d; simp) (by intro l; simp) h1; subst this; exact h2
+  | .int _, b, c, h1, h2 => by
+      have := le_atom_left (by intro d; simp) (by intro l; simp) h1; subst this; exact h2
+  | .str _, b, c, h1, h2 => by
+      have := le_atom_left (by intro d; simp) (by intro l; simp) h1; subst this; exact h2
+  | .tuple _, b, c, h1, h2 => by
+      have := le_atom_left (by intro d; simp) (by intro l; simp) h1; subst this; exact h2
+  | .set _, b, c, h1, h2 => by
+      have := le_atom_left (by intro d; simp) (by intro l; simp) h1; subst this; exact h2
+  | .app _ _ _, b, c, h1, h2 => by
+      have := le_atom_left (by intro d; simp) (by intro l; simp) h1; subst this; exact h2
+  | .fn _ _ _, b, c, h1, h2 => by
+      have := le_atom_left (by intro d; simp) (by intro l; simp) h1; subst this; exact h2
+  | .comp _, b, c, h1, h2 => by
+      have := le_atom_left (by intro d; simp) (by intro l; simp) h1; subst this; exact h2
+  | .missing, b, c, h1, h2 => by
+      have := le_atom_left (by intro d; simp) (by intro l; simp) h1; subst this; exact h2
+theorem entries_le_trans : ∀ (a : List (String × V)) (k : String) (v : V), (k, v) ∈ a →
+    ∀ w x, V.le v w = true → V.le w x = true → V.le v x = true
+  | [], _, _, h => by simp at h
+  | (k0, v0) :: rest, k, v, h =>
+    if e : v = v0 then fun w x h1 h2 => e ▸ V.le_trans v0 w x (e ▸ h1) h2
+    else entries_le_trans rest k v (by
+      simp at h
+      rcases h with ⟨_, h⟩ | h
+      · exact absurd h e
+      · exact h)
+theorem leList_trans : ∀ (xs ys zs : List V), leList xs ys = true → leList ys zs = true →
+    leList xs zs = true
+  | [], ys, zs, h1, h2 => by
+      cases ys with
+      | nil => exact h2
+      | cons _ _ => simp [leList] at h1
+  | x :: xs, ys, zs, h1, h2 => by
+      cases ys with
+      | nil => simp [leList] at h1
+      | cons y ys =>
+        cases zs with
+        | nil => simp [leList] at h2
+        | cons z zs =>
+          simp [leList] at h1 h2 ⊢
+          exact ⟨V.le_trans x y z h1.1 h2.1, leList_trans xs ys zs h1.2 h2.2⟩
+end
+
+theorem dictEqv_refl (a : V) : dictEqv a a = true := by simp [dictEqv, V.le_refl]
+theorem dictEqv_symm {a b : V} (h : dictEqv a b = true) : dictEqv b a = true := by
+  simp [dictEqv] at h ⊢; exact ⟨h.2, h.1⟩
+theorem dictEqv_trans {a b c : V} (h1 : dictEqv a b = true) (h2 : dictEqv b c = true) :
+    dictEqv a c = true := by
+  simp [dictEqv] at h1 h2 ⊢
+  exact ⟨V.le_trans _ _ _ h1.1 h2.1, V.le_trans _ _ _ h2.2 h1.2⟩
+
+theorem prefix_snoc {k pre : Path} {a : String} (h : k <+: pre ++ [a]) :
+    k <+: pre ∨ k = pre ++ [a] := by
+  obtain ⟨t, ht⟩ := h
+  rcases List.eq_nil_or_concat t with rfl | ⟨t', b, rfl⟩
+  · right; simpa using ht
+  · left
+    rw [List.concat_eq_append, ← List.append_assoc] at ht
+    have := List.append_inj' ht (by simp)
+    exact ⟨t', this.1⟩
+
+theorem length_le_maxLen {k : Path} {K : List Path} (hk : k ∈ K) :
+    k.length ≤ (K.map List.length).foldr max 0 := by
+  induction K with
+  | nil => simp at hk
+  | cons k0 K ih =>
+    simp at hk ⊢
+    rcases hk with rfl | hk
+    · omega
+    · have := ih hk; omega
+
+/-- inclusion half of uniqueness, by descent along the sections (bounded by the longest key) -/
+theorem restrict_le_aux {o : V} {K : List Path} {R₁ R₂ : List (String × V)} (hK : Present o K)
+    (s₁ : IsRestrict o K R₁) (s₂ : IsRestrict o K R₂) (N : Nat) (hN : ∀ k ∈ K, k.length ≤ N) :
+    ∀ (d : Nat) (pre : Path) (r₁ r₂ : List (String × V)), N ≤ pre.length + d →
+      dget pre (.dict R₁) = some (.dict r₁) → dget pre (.dict R₂) = some (.dict r₂) →
+      (∀ k ∈ K, ¬ k <+: pre) → V.le (.dict r₁) (.dict r₂) = true := by
+  intro d
+  induction d with
+  | zero =>
+    intro pre r₁ r₂ hd h1 h2 hpre
+    rw [le_dict_iff]
+    intro a v ha
+    have hp1 : dget (pre ++ [a]) (.dict R₁) = some v := by
+      rw [dget_append, h1]; simp [dget_cons_dict, ha]
+    by_cases c1 : ∃ k ∈ K, k <+: pre ++ [a]
+    · obtain ⟨k, hk, hpk⟩ := c1
+      rcases prefix_snoc hpk with h | rfl
+      · exact absurd h (hpre k hk)
+      · obtain ⟨_, hn, vo, hvo⟩ := hK _ hk
+        have e1 := (walk_found_iff_dget hn _ vo).1 ((s₁.lookup _ hk).trans hvo)
+        have e2 := (walk_found_iff_dget hn _ vo).1 ((s₂.lookup _ hk).trans hvo)
+        rw [hp1] at e1; cases e1
+        rw [dget_append, h2] at e2
+        simp [dget_cons_dict] at e2
+        cases hl : alookup a r₂ with
+        | none => simp [hl] at e2
+        | some w => simp [hl] at e2; subst e2; exact ⟨_, rfl, V.le_refl _⟩
+    · rcases s₁.exact _ v (by simp) hp1 with h | ⟨k, hk, t, ht⟩
+      · exact absurd h c1
+      · have := hN k hk
+        cases t with
+        | nil => exact absurd ⟨k, hk, by simp at ht; rw [ht]; exact List.prefix_refl _⟩ c1
+        | cons b t => rw [← ht] at this; simp at this; omega
+  | succ d ih =>
+    intro pre r₁ r₂ hd h1 h2 hpre
+    rw [le_dict_iff]
+    intro a v ha
+    have hp1 : dget (pre ++ [a]) (.dict R₁) = some v := by
+      rw [dget_append, h1]; simp [dget_cons_dict, ha]
+    by_cases c1 : ∃ k ∈ K, k <+: pre ++ [a]
+    · obtain ⟨k, hk, hpk⟩ := c1
+      rcases prefix_snoc hpk with h | rfl
+      · exact absurd h (hpre k hk)
+      · obtain ⟨_, hn, vo, hvo⟩ := hK _ hk
+        have e1 := (walk_found_iff_dget hn _ vo).1 ((s₁.lookup _ hk).trans hvo)
+        have e2 := (walk_found_iff_dget hn _ vo).1 ((s₂.lookup _ hk).trans hvo)
+        rw [hp1] at e1; cases e1
+        rw [dget_append, h2] at e2
+        simp [dget_cons_dict] at e2
+        cases hl : alookup a r₂ with
+        | none => simp [hl] at e2
+        | some w => simp [hl] at e2; subst e2; exact ⟨_, rfl, V.le_refl _⟩
+    · rcases s₁.exact _ v (by simp) hp1 with h | ⟨k, hk, t, ht⟩
+      · exact absurd h c1
+      · cases t with
+        | nil => exact absurd ⟨k, hk, by simp at ht; rw [ht]; exact List.prefix_refl _⟩ c1
+        | cons b t =>
+          obtain ⟨_, hn, vo, hvo⟩ := hK _ hk
+          have e1 := (walk_found_iff_dget hn _ vo).1 ((s₁.lookup _ hk).trans hvo)
+          have e2 := (walk_found_iff_dget hn _ vo).1 ((s₂.lookup _ hk).trans hvo)
+          rw [← ht, dget_append, hp1] at e1
+          simp at e1
+          obtain ⟨r₁', _, hr₁', _, _⟩ := dget_cons_some e1
+          subst hr₁'
+          rw [← ht, dget_append] at e2
+          cases hp2 : dget (pre ++ [a]) (.dict R₂) with
+          | none => simp [hp2] at e2
+          | some v₂ =>
+            simp [hp2] at e2
+            obtain ⟨r₂', _, hr₂', _, _⟩ := dget_cons_some e2
+            subst hr₂'
+            have hl : alookup a r₂ = some (.dict r₂') := by
+              rw [dget_append, h2] at hp2
+              simp [dget_cons_dict] at hp2
+              cases hl : alookup a r₂ with
+              | none => simp [hl] at hp2
+              | some w => simp [hl] at hp2; rw [hp2]
+            refine ⟨_, hl, ih (pre ++ [a]) r₁' r₂' (by simp; omega) hp1 hp2 ?_⟩
+            intro k' hk' hpk'
+            exact c1 ⟨k', hk', hpk'⟩
+
+/-- **uniqueness**: the restriction of `o` to `K` is determined up to Python dict equality -/
+theorem restrict_unique {o : V} {K : List Path} {R₁ R₂ : List (String × V)} (hK : Present o K)
+    (s₁ : IsRestrict o K R₁) (s₂ : IsRestrict o K R₂) :
+    dictEqv (.dict R₁) (.dict R₂) = true := by
+  have l₁ := restrict_le_aux hK s₁ s₂ _ (fun k hk => length_le_maxLen hk)
+    ((K.map List.length).foldr max 0) [] R₁ R₂
+    (by simp) (by simp) (by simp) (fun k hk h => (hK k hk).1 (List.prefix_nil.1 h))
+  have l₂ := restrict_le_aux hK s₂ s₁ _ (fun k hk => length_le_maxLen hk)
+    ((K.map List.length).foldr max 0) [] R₂ R₁
+    (by simp) (by simp) (by simp) (fun k hk h => (hK k hk).1 (List.prefix_nil.1 h))
+  simp [dictEqv, l₁, l₂]
+
+
 /-! ### fixtures for the non-vacuity examples and witnesses of `LabreaProps/C19.lean` -/
 
 /-- members on `A` and on `A.X` (prefix overlap), a defaulted `B.Y`, a constant, a dataset -/
@@ -842,6 +1084,9 @@ def cOverlap : DsClass := concreteClass "C"
   [("a", .opt ⟨["A"], Option.none⟩), ("ax", .opt ⟨["A", "X"], Option.none⟩),
    ("b", .opt ⟨["B", "Y"], some (.int 3)⟩), ("c", .const (.int 9)),
    ("d", .ds [⟨["S", "T", "U"], some (.int 5)⟩])]
+/-- `A` and a defaulted `A.X`: the reported keys depend on the options -/
+def cPre : DsClass := concreteClass "C"
+  [("a", .opt ⟨["A"], Option.none⟩), ("ax", .opt ⟨["A", "X"], some (.int 7)⟩)]
 /-- one member on the nested key `A.X` -/
 def cAX : DsClass := concreteClass "C" [("x", .opt ⟨["A", "X"], Option.none⟩)]
 
